@@ -263,9 +263,10 @@ func execReq(payload []byte) []string {
 // cases): one miniredis, one logical process, one loopback listener.  A fresh set per case would
 // leave tens of thousands of sockets in TIME_WAIT and exhaust the ephemeral port range.
 type env struct {
-	w  *world.World
-	p  *world.Proc
-	ln *net.TCPListener
+	w   *world.World
+	p   *world.Proc
+	ln  *net.TCPListener
+	ln6 *net.TCPListener // wildcard dual-stack listener, as the browser component opens for ":28910"; nil without IPv6
 }
 
 var theEnv *env
@@ -281,6 +282,9 @@ func getEnv() (e *env, err error) {
 		ln, err = net.ListenTCP("tcp4", &net.TCPAddr{IP: net.IPv4(127, 0, 0, 1), Port: 0})
 		if err == nil {
 			theEnv = &env{w: w, p: p, ln: ln}
+			if l6, err6 := net.ListenTCP("tcp", &net.TCPAddr{IP: net.IPv6unspecified}); err6 == nil {
+				theEnv.ln6 = l6
+			}
 		}
 	}); !ok {
 		return nil, errors.New(txt)
@@ -329,16 +333,34 @@ func execReply(clipHint string, payload []byte, serversTok string) []string {
 		stored = append(stored, fromServer(s))
 	}
 
+	// "m:<ip>": the same IPv4 client through the dual-stack listener (the handler sees a 16-byte IPv4-mapped peer);
+	// "6": an IPv6 client (::1): there is no IPv4 address to echo, the reply carries 0.0.0.0
+	target := ln.Addr().String()
+	v6peer := false
+	if strings.HasPrefix(clipHint, "m:") && e.ln6 != nil {
+		ln = e.ln6
+		target = fmt.Sprintf("127.0.0.1:%d", ln.Addr().(*net.TCPAddr).Port)
+	}
+	clipHint = strings.TrimPrefix(clipHint, "m:")
 	// the client binds to the hinted loopback address (any 127.x.y.z is local on Linux); fall back to the default
 	var client *net.TCPConn
-	if hint := net.ParseIP(clipHint).To4(); hint != nil && hint[0] == 127 {
+	if clipHint == "6" && e.ln6 != nil {
+		ln = e.ln6
+		if c, err := net.DialTimeout("tcp6", fmt.Sprintf("[::1]:%d", ln.Addr().(*net.TCPAddr).Port), 5*time.Second); err == nil {
+			client = c.(*net.TCPConn) // nolint: forcetypeassert
+			v6peer = true
+		} else {
+			ln = e.ln
+		}
+	}
+	if hint := net.ParseIP(clipHint).To4(); client == nil && hint != nil && hint[0] == 127 {
 		d := net.Dialer{LocalAddr: &net.TCPAddr{IP: hint, Port: 0}, Timeout: 5 * time.Second}
-		if c, err := d.Dial("tcp4", ln.Addr().String()); err == nil {
+		if c, err := d.Dial("tcp4", target); err == nil {
 			client = c.(*net.TCPConn) // nolint: forcetypeassert
 		}
 	}
 	if client == nil {
-		c, err := net.DialTimeout("tcp4", ln.Addr().String(), 5*time.Second)
+		c, err := net.DialTimeout("tcp4", target, 5*time.Second)
 		if err != nil {
 			return []string{"dial-error"}
 		}
@@ -378,6 +400,9 @@ func execReply(clipHint string, payload []byte, serversTok string) []string {
 		panicked = "handler-hung"
 	}
 	head := []string{local.IP.To4().String(), strconv.Itoa(local.Port), recordsToken(stored)}
+	if v6peer {
+		head[0] = "0.0.0.0"
+	}
 	switch {
 	case panicked != "":
 		return append(head, panicked)
@@ -676,6 +701,12 @@ func malformed(rng *rand.Rand, q reqParts) []byte {
 }
 
 func clipHint(rng *rand.Rand) string {
+	switch rng.Intn(16) {
+	case 0, 1: // an IPv4 client seen through the dual-stack listener
+		return fmt.Sprintf("m:127.%d.%d.%d", rng.Intn(256), rng.Intn(256), 1+rng.Intn(254))
+	case 2: // an IPv6 client
+		return "6"
+	}
 	if rng.Intn(3) == 0 {
 		return "127.0.0.1"
 	}
